@@ -23,6 +23,9 @@ func (t *translator) translateFn(fi *fnInfo, emitDep func(*fnInfo)) {
 			panic(r)
 		}
 	}()
+	oldErrEnum := t.errEnum
+	t.errEnum = usesErrIdentity(fi.pkg.TypesInfo, fi.decl.Body)
+	defer func() { t.errEnum = oldErrEnum }()
 	comps, err := t.retComponents(fi)
 	if err != nil {
 		c.fail(fi.decl, "%v", err)
@@ -248,6 +251,17 @@ func (c *fctx) assignedOutside(scope ast.Node, nodes ...ast.Node) []*types.Var {
 				if name := c.writerCall(s); name != "" && len(s.Args) > 0 {
 					add(rootVar(c.info, s.Args[0]))
 				}
+				// readers and buffers are advanced / extended by these calls
+				switch c.pkgFunc(s) {
+				case "io.ReadFull":
+					add(rootVar(c.info, s.Args[0]))
+					add(rootVar(c.info, s.Args[1]))
+				case "encoding/binary.Write", "sort.Slice":
+					add(rootVar(c.info, s.Args[0]))
+				}
+				if m, recv := c.stdMethod(s); m == "bytes.Buffer.Write" || m == "bufio.Reader.ReadByte" || m == "bytes.Reader.ReadByte" {
+					add(rootVar(c.info, recv))
+				}
 			case *ast.RangeStmt:
 				if s.Tok == token.ASSIGN {
 					add(rootVar(c.info, s.Key))
@@ -315,7 +329,7 @@ func terminates(list []ast.Stmt) bool {
 	case *ast.ReturnStmt:
 		return true
 	case *ast.BranchStmt:
-		return s.Tok == token.CONTINUE || s.Tok == token.BREAK
+		return s.Tok == token.CONTINUE || s.Tok == token.BREAK || s.Tok == token.GOTO
 	case *ast.BlockStmt:
 		return terminates(s.List)
 	case *ast.IfStmt:
@@ -330,7 +344,7 @@ func terminates(list []ast.Stmt) bool {
 			if cc.List == nil {
 				hasDefault = true
 			}
-			if !terminates(cc.Body) {
+			if !terminates(cc.Body) || breaksSwitch(cc.Body) {
 				return false
 			}
 		}
@@ -499,6 +513,9 @@ func (c *fctx) block(list []ast.Stmt, k string) string {
 		if s.Label != nil {
 			c.fail(s, "labelled branch")
 		}
+		if s.Tok == token.BREAK && c.inSwitch > 0 && len(c.switchBreak) > 0 {
+			return c.switchBreak[len(c.switchBreak)-1]
+		}
 		if len(c.loops) == 0 {
 			c.fail(s, "%s outside a loop", s.Tok)
 		}
@@ -508,7 +525,10 @@ func (c *fctx) block(list []ast.Stmt, k string) string {
 			return l.contCode()
 		case token.BREAK:
 			if c.inSwitch > 0 {
-				c.fail(s, "break inside switch")
+				if len(c.switchBreak) == 0 {
+					c.fail(s, "break inside switch")
+				}
+				return c.switchBreak[len(c.switchBreak)-1]
 			}
 			return l.breakCode
 		}
@@ -524,7 +544,7 @@ func (c *fctx) block(list []ast.Stmt, k string) string {
 	case *ast.AssignStmt:
 		// x, err := f(); if err != nil { return …, error }   ==>  monadic bind
 		if len(rest) > 0 && len(s.Rhs) == 1 {
-			if call, ok := s.Rhs[0].(*ast.CallExpr); ok {
+			if call, ok := s.Rhs[0].(*ast.CallExpr); ok && !c.isSpecialCall(call) {
 				if id, ok := s.Lhs[len(s.Lhs)-1].(*ast.Ident); ok && isErrorType(c.typeOfIdent(id)) {
 					ev := c.localVar(id)
 					if ev != nil && c.isErrCheck(rest[0], ev) {
@@ -555,7 +575,7 @@ func (c *fctx) ifStmt(s *ast.IfStmt, rest []ast.Stmt, k string) string {
 	// if err := f(); err != nil { return error }
 	if s.Init != nil && s.Else == nil {
 		if as, ok := s.Init.(*ast.AssignStmt); ok && len(as.Rhs) == 1 {
-			if call, ok := as.Rhs[0].(*ast.CallExpr); ok {
+			if call, ok := as.Rhs[0].(*ast.CallExpr); ok && !c.isSpecialCall(call) {
 				if id, ok := as.Lhs[len(as.Lhs)-1].(*ast.Ident); ok && isErrorType(c.typeOfIdent(id)) {
 					ev := c.localVar(id)
 					probe := &ast.IfStmt{Cond: s.Cond, Body: s.Body}
@@ -633,22 +653,37 @@ func (c *fctx) switchStmt(s *ast.SwitchStmt, rest []ast.Stmt, k string) string {
 	var def []ast.Stmt
 	hasDef := false
 	nFall := 0
+	var pending []string // conditions of `case X: fallthrough` clauses, merged into the next clause
+	hasBreak := false
 	for _, cl := range s.Body.List {
 		cc := cl.(*ast.CaseClause)
+		onlyFall := len(cc.Body) == 1
+		if onlyFall {
+			b, ok := cc.Body[0].(*ast.BranchStmt)
+			onlyFall = ok && b.Tok == token.FALLTHROUGH
+		}
 		for _, st := range cc.Body {
-			if b, ok := st.(*ast.BranchStmt); ok && b.Tok == token.FALLTHROUGH {
-				c.fail(s, "fallthrough")
+			if b, ok := st.(*ast.BranchStmt); ok && b.Tok == token.FALLTHROUGH && !onlyFall {
+				c.fail(s, "fallthrough after other statements")
 			}
 		}
-		if !terminates(cc.Body) {
+		if breaksSwitch(cc.Body) {
+			hasBreak = true
+		}
+		if !onlyFall && (!terminates(cc.Body) || breaksSwitch(cc.Body)) {
 			nFall++
 		}
 		if cc.List == nil {
+			if onlyFall || len(pending) > 0 {
+				c.fail(s, "fallthrough around default")
+			}
 			def = cc.Body
 			hasDef = true
 			continue
 		}
 		var cs []string
+		cs = append(cs, pending...)
+		pending = nil
 		for _, e := range cc.List {
 			nb := len(c.binds)
 			if tag != "" {
@@ -660,7 +695,14 @@ func (c *fctx) switchStmt(s *ast.SwitchStmt, rest []ast.Stmt, k string) string {
 				c.fail(e, "case expression can panic")
 			}
 		}
+		if onlyFall {
+			pending = cs
+			continue
+		}
 		arms = append(arms, arm{strings.Join(cs, " ∨ "), cc.Body})
+	}
+	if len(pending) > 0 {
+		c.fail(s, "fallthrough in the last clause")
 	}
 	if !hasDef {
 		nFall++
@@ -668,20 +710,70 @@ func (c *fctx) switchStmt(s *ast.SwitchStmt, rest []ast.Stmt, k string) string {
 	c.inSwitch++
 	defer func() { c.inSwitch-- }()
 	build := func(callK string) string {
+		c.switchBreak = append(c.switchBreak, callK)
+		defer func() { c.switchBreak = c.switchBreak[:len(c.switchBreak)-1] }()
 		code := c.block(def, callK)
 		for i := len(arms) - 1; i >= 0; i-- {
 			code = "if " + arms[i].cond + " then (\n" + indent(c.block(arms[i].body, callK), "  ") + ")\nelse (\n" + indent(code, "  ") + ")"
 		}
 		return code
 	}
-	if nFall == 0 {
+	if nFall == 0 && !hasBreak {
 		return pre + build("")
 	}
 	restCode := c.block(rest, k)
-	if nFall == 1 {
+	if nFall == 1 && !hasBreak {
 		return pre + build(restCode)
 	}
 	return pre + c.jpWrap(s, restCode, build, s)
+}
+
+// does the statement list contain a `break` that leaves the enclosing switch?
+func breaksSwitch(list []ast.Stmt) bool {
+	found := false
+	var walk func(n ast.Node)
+	walk = func(n ast.Node) {
+		ast.Inspect(n, func(m ast.Node) bool {
+			switch x := m.(type) {
+			case *ast.ForStmt, *ast.RangeStmt, *ast.SwitchStmt, *ast.TypeSwitchStmt, *ast.SelectStmt, *ast.FuncLit:
+				if m != n {
+					return false
+				}
+			case *ast.BranchStmt:
+				if x.Tok == token.BREAK && x.Label == nil {
+					found = true
+				}
+			}
+			return true
+		})
+	}
+	for _, s := range list {
+		walk(s)
+	}
+	return found
+}
+
+// can the loop body return a value from the function (anything but `return …, <error constructor>`)?
+func (c *fctx) hasValueReturn(body ast.Node) bool {
+	found := false
+	ast.Inspect(body, func(n ast.Node) bool {
+		switch x := n.(type) {
+		case *ast.FuncLit:
+			return false
+		case *ast.ReturnStmt:
+			if !c.fi.hasErr || len(x.Results) == 0 {
+				found = true
+				return false
+			}
+			last := x.Results[len(x.Results)-1]
+			if call, ok := last.(*ast.CallExpr); ok && c.errorCtor(call) {
+				return true
+			}
+			found = true
+		}
+		return !found
+	})
+	return found
 }
 
 // ---------- loops
@@ -703,21 +795,42 @@ func (c *fctx) varDecls(n ast.Node, vs []*types.Var) (params, names, tys []strin
 	return
 }
 
-func (c *fctx) afterLoop(n ast.Node, callTerm string, state []*types.Var, names []string, rest []ast.Stmt, k string) string {
+func (c *fctx) afterLoop(n ast.Node, callTerm string, state []*types.Var, names []string, rest []ast.Stmt, k string, valueRet bool) string {
 	r := c.fresh("s")
 	code := "(" + callTerm + ") >>= fun " + r + " =>\n"
+	if valueRet {
+		st := c.fresh("st")
+		prop := "Res.ok v_"
+		if len(c.loops) > 0 {
+			if !c.loops[len(c.loops)-1].valueRet {
+				c.fail(n, "value return out of a nested loop")
+			}
+			prop = "Res.ok (Sum.inr v_)"
+		}
+		body := ""
+		for i := range state {
+			body += fmt.Sprintf("let %s := %s;\n", names[i], proj(st, i, len(state)))
+		}
+		body += c.block(rest, k)
+		return code + "match " + r + " with\n| Sum.inr v_ => " + prop + "\n| Sum.inl " + st + " => (\n" + indent(body, "  ") + ")"
+	}
 	for i := range state {
 		code += fmt.Sprintf("let %s := %s;\n", names[i], proj(r, i, len(state)))
 	}
 	return code + c.block(rest, k)
 }
 
+func (c *fctx) loopTypes(stys []string, valueRet bool) (retT, exitWrap string) {
+	retT = tupleType(stys)
+	if valueRet {
+		return "Sum (" + retT + ") (" + c.retT + ")", "Sum.inl "
+	}
+	return retT, ""
+}
+
 func (c *fctx) forStmt(s *ast.ForStmt, rest []ast.Stmt, k string) string {
 	if s.Init != nil {
 		c.simple(s.Init)
-	}
-	if s.Cond == nil {
-		c.fail(s, "for without condition")
 	}
 	fuel := c.fuelFor(s)
 	pre := c.flush()
@@ -728,7 +841,11 @@ func (c *fctx) forStmt(s *ast.ForStmt, rest []ast.Stmt, k string) string {
 		stateSet[v] = true
 	}
 	var env []*types.Var
-	for _, v := range c.freeVars(s.Body, s.Cond, s.Body, s.Post) {
+	var condNode ast.Node
+	if s.Cond != nil {
+		condNode = s.Cond
+	}
+	for _, v := range c.freeVars(s.Body, condNode, s.Body, s.Post) {
 		if !stateSet[v] {
 			env = append(env, v)
 		}
@@ -736,10 +853,11 @@ func (c *fctx) forStmt(s *ast.ForStmt, rest []ast.Stmt, k string) string {
 	name := c.loopName()
 	eparams, enames, _ := c.varDecls(s, env)
 	sparams, snames, stys := c.varDecls(s, state)
-	retT := tupleType(stys)
+	valueRet := c.hasValueReturn(s.Body)
+	retT, wrap := c.loopTypes(stys, valueRet)
 	recCall := name + " fuel_ " + strings.Join(append(append([]string{}, enames...), snames...), " ")
-	exit := "Res.ok " + tupleVal(snames)
-	lc := &loopCtx{breakCode: exit}
+	exit := "Res.ok (" + wrap + tupleVal(snames) + ")"
+	lc := &loopCtx{breakCode: exit, valueRet: valueRet}
 	lc.cont = func() string {
 		if s.Post != nil {
 			c.simple(s.Post)
@@ -751,7 +869,10 @@ func (c *fctx) forStmt(s *ast.ForStmt, rest []ast.Stmt, k string) string {
 	c.retStack = append(c.retStack, retT)
 	savedSwitch := c.inSwitch
 	c.inSwitch = 0
-	cond := c.cond(s.Cond)
+	cond := "True"
+	if s.Cond != nil {
+		cond = c.cond(s.Cond)
+	}
 	cpre := c.flush()
 	body := c.block(s.Body.List, lc.cont())
 	c.inSwitch = savedSwitch
@@ -762,11 +883,27 @@ func (c *fctx) forStmt(s *ast.ForStmt, rest []ast.Stmt, k string) string {
 		indent(cpre+"if "+cond+" then (\n"+indent(body, "  ")+")\nelse ("+exit+")", "    "))
 	c.fi.aux = append(c.fi.aux, def)
 	call := name + " (" + fuel + ") " + strings.Join(append(append([]string{}, enames...), snames...), " ")
-	return pre + c.afterLoop(s, call, state, snames, rest, k)
+	return pre + c.afterLoop(s, call, state, snames, rest, k, valueRet)
 }
 
 // the number of iterations the loop header allows, as a Lean Nat term evaluated before the loop
 func (c *fctx) fuelFor(s *ast.ForStmt) string {
+	if s.Cond == nil {
+		// `for { … }` that consumes a reader: every iteration reads at least one octet or leaves the loop
+		var reader ast.Expr
+		ast.Inspect(s.Body, func(n ast.Node) bool {
+			if call, ok := n.(*ast.CallExpr); ok && reader == nil {
+				if m, recv := c.stdMethod(call); m == "bufio.Reader.ReadByte" || m == "bytes.Reader.ReadByte" {
+					reader = recv
+				}
+			}
+			return reader == nil
+		})
+		if reader == nil {
+			c.fail(s, "for without condition")
+		}
+		return "(" + c.expr(reader) + ").length + 2"
+	}
 	be, ok := s.Cond.(*ast.BinaryExpr)
 	if !ok {
 		c.fail(s, "loop condition without a recognisable bound")
@@ -836,13 +973,17 @@ func (c *fctx) fuelFor(s *ast.ForStmt) string {
 func (c *fctx) rangeStmt(s *ast.RangeStmt, rest []ast.Stmt, k string) string {
 	xt := c.info.Types[s.X].Type
 	sl, ok := xt.Underlying().(*types.Slice)
-	if !ok {
+	mp, isMap := xt.Underlying().(*types.Map)
+	if !ok && !isMap {
 		c.fail(s, "range over %s", xt)
 	}
 	if s.Tok == token.ASSIGN {
 		c.fail(s, "range with assignment")
 	}
 	xs := c.expr(s.X)
+	if isMap {
+		xs = "(Go.mapEntries " + xs + ")"
+	}
 	pre := c.flush()
 	state := c.assignedOutside(s, s.Body)
 	stateSet := map[*types.Var]bool{}
@@ -858,14 +999,26 @@ func (c *fctx) rangeStmt(s *ast.RangeStmt, rest []ast.Stmt, k string) string {
 	name := c.loopName()
 	eparams, enames, _ := c.varDecls(s, env)
 	sparams, snames, stys := c.varDecls(s, state)
-	retT := tupleType(stys)
-	et := c.ltype(s, sl.Elem())
+	valueRet := c.hasValueReturn(s.Body)
+	retT, wrap := c.loopTypes(stys, valueRet)
+	var et string
 	elem := "x_"
 	var binders string
-	if id, ok := s.Value.(*ast.Ident); ok && id.Name != "_" {
-		elem = c.name(c.info.Defs[id])
+	if isMap {
+		et = "(" + c.ltype(s, mp.Key()) + " × " + c.ltype(s, mp.Elem()) + ")"
+		if id, ok := s.Key.(*ast.Ident); ok && id.Name != "_" {
+			binders += fmt.Sprintf("let %s : %s := x_.1;\n", c.name(c.info.Defs[id]), c.ltype(s, mp.Key()))
+		}
+		if id, ok := s.Value.(*ast.Ident); ok && id.Name != "_" {
+			binders += fmt.Sprintf("let %s : %s := x_.2;\n", c.name(c.info.Defs[id]), c.ltype(s, mp.Elem()))
+		}
+	} else {
+		et = c.ltype(s, sl.Elem())
+		if id, ok := s.Value.(*ast.Ident); ok && id.Name != "_" {
+			elem = c.name(c.info.Defs[id])
+		}
 	}
-	if id, ok := s.Key.(*ast.Ident); ok && id.Name != "_" {
+	if id, ok := s.Key.(*ast.Ident); ok && id.Name != "_" && !isMap {
 		kv := c.info.Defs[id].(*types.Var)
 		if c.natVars[kv] {
 			binders = fmt.Sprintf("let %s : Nat := idx_;\n", c.name(kv))
@@ -874,8 +1027,8 @@ func (c *fctx) rangeStmt(s *ast.RangeStmt, rest []ast.Stmt, k string) string {
 		}
 	}
 	recCall := name + " rest_ (idx_ + 1) " + strings.Join(append(append([]string{}, enames...), snames...), " ")
-	exit := "Res.ok " + tupleVal(snames)
-	lc := &loopCtx{breakCode: exit}
+	exit := "Res.ok (" + wrap + tupleVal(snames) + ")"
+	lc := &loopCtx{breakCode: exit, valueRet: valueRet}
 	lc.cont = func() string { return recCall }
 	c.loops = append(c.loops, lc)
 	c.retStack = append(c.retStack, retT)
@@ -890,5 +1043,5 @@ func (c *fctx) rangeStmt(s *ast.RangeStmt, rest []ast.Stmt, k string) string {
 		indent(binders+body, "    "))
 	c.fi.aux = append(c.fi.aux, def)
 	call := name + " " + xs + " 0 " + strings.Join(append(append([]string{}, enames...), snames...), " ")
-	return pre + c.afterLoop(s, call, state, snames, rest, k)
+	return pre + c.afterLoop(s, call, state, snames, rest, k, valueRet)
 }
